@@ -1,6 +1,7 @@
 package main
 
 import (
+	"bytes"
 	"encoding/hex"
 	"errors"
 	"fmt"
@@ -35,6 +36,41 @@ func decOutcome(rest []byte, err error, fields func() string) string {
 		return "err"
 	}
 	return fmt.Sprintf("ok %s rest=%s", fields(), hexOrDash(rest))
+}
+
+// appendCheck: AppendTo appends -- encoding after other content (a destination that is not empty, with
+// and without spare capacity, another message of the same kind included) leaves that content alone
+// and adds exactly the bytes the encoding into an empty destination gives.
+func appendCheck(encf func(dst []byte) []byte) string {
+	out := encf(nil)
+	pat := make([]byte, 19)
+	for i := range pat {
+		pat[i] = 0xA5
+	}
+	for variant := 0; variant < 4; variant++ {
+		var pre []byte
+		switch variant {
+		case 0:
+			pre = append([]byte(nil), pat...)
+		case 1:
+			pre = append(make([]byte, 0, len(pat)+len(out)+64), pat...)
+		case 2:
+			pre = append(make([]byte, 0, 2*len(out)+16), out...)
+		case 3:
+			pre = append(append(make([]byte, 0, 4*len(out)+64), out...), pat...)
+		}
+		want := append(append([]byte(nil), pre...), out...)
+		// the spare capacity must not be relied on to be zero
+		spare := pre[len(pre):cap(pre)]
+		for i := range spare {
+			spare[i] = 0x5A
+		}
+		got := encf(pre)
+		if !bytes.Equal(got, want) {
+			return fmt.Sprintf(" append=BAD%d", variant)
+		}
+	}
+	return " append=ok"
 }
 
 func headerFromTokens(tk []string) (*wt.Header, error) {
@@ -159,48 +195,48 @@ func init() {
 		s.obs("decreuse %s", decodeReuse(tk[1], unhex(tk[2]), unhex(tk[3])))
 	})
 	register("enc", func(s *sess, tk []string) {
-		var out []byte
+		var encf func(dst []byte) []byte
 		switch tk[1] {
 		case "ts":
 			t := wt.Timestamp(atoi(tk[2]))
-			out = t.AppendTo(nil)
+			encf = t.AppendTo
 		case "dur":
 			d := wt.Duration(int32(atoi(tk[2])))
-			out = d.AppendTo(nil)
+			encf = d.AppendTo
 		case "val":
 			v := hexv(tk[2])
-			out = v.AppendTo(nil)
+			encf = v.AppendTo
 		case "point":
 			p := wt.Point{Time: wt.Timestamp(atoi(tk[2])), Value: hexv(tk[3])}
-			out = p.AppendTo(nil)
+			encf = p.AppendTo
 		case "points":
 			var pp wt.Points
 			for i := 3; i+1 < len(tk); i += 2 {
 				pp = append(pp, wt.Point{Time: wt.Timestamp(atoi(tk[i])), Value: hexv(tk[i+1])})
 			}
-			out = pp.AppendTo(nil)
+			encf = pp.AppendTo
 		case "series":
 			var vs []wt.Value
 			for _, t := range tk[6:] {
 				vs = append(vs, hexv(t))
 			}
 			ts := wt.NewTimeSeries(wt.Timestamp(atoi(tk[2])), wt.Timestamp(atoi(tk[3])), wt.Duration(int32(atoi(tk[4]))), vs)
-			out = ts.AppendTo(nil)
+			encf = ts.AppendTo
 		case "ainfo":
 			a := wt.NewArchiveInfo(wt.Duration(int32(atoi(tk[2]))), uint32(atoi(tk[3])))
-			out = a.AppendTo(nil)
+			encf = a.AppendTo
 		case "header":
 			h, err := headerFromTokens(tk[2:])
 			if err != nil {
 				s.obs("enc err")
 				return
 			}
-			s.obs("enc %s", showHeader(h))
+			s.obs("enc %s%s", showHeader(h), appendCheck(h.AppendTo))
 			return
 		default:
 			must(fmt.Errorf("unknown kind %q", tk[1]))
 		}
-		s.obs("enc %s", hexOrDash(out))
+		s.obs("enc %s%s", hexOrDash(encf(nil)), appendCheck(encf))
 	})
 	register("hdr", func(s *sess, tk []string) {
 		f := s.file(tk[1])
